@@ -180,3 +180,41 @@ def ref_decode_packet(enc):
     if ord(c) < 128:
         return ('invalid', 'first character is not a type digit')
     return ('open', 'non-ASCII first character')
+
+
+# ---------------------------------------------------------------------------------------------
+# payload (body) codec
+# ---------------------------------------------------------------------------------------------
+MAX_PACKETS = 16
+
+
+def ref_decode_body(text, limit=MAX_PACKETS):
+    """Reference reading of a polling body (str).
+    -> ('ok', [(type, [allowed payloads], binary)]) | ('invalid', why) | ('open', why)"""
+    import urllib.parse
+    if text == '':
+        return ('ok', [])
+    if text.startswith('d='):
+        try:
+            vals = urllib.parse.parse_qs(text, keep_blank_values=False).get('d')
+        except ValueError as e:
+            return ('invalid', 'form decoding failed: %s' % e)
+        if not vals:
+            return ('invalid', 'form body without a d value')
+        text = vals[0]
+    pieces = text.split(SEP)
+    if len(pieces) > limit:
+        return ('invalid', 'more than %d packets' % limit)
+    out = []
+    open_why = None
+    for p in pieces:
+        r = ref_decode_packet(p)
+        if r[0] == 'invalid':
+            return ('invalid', r[1])
+        if r[0] == 'open':
+            open_why = r[1]
+            continue
+        out.append((r[1], r[2], r[3]))
+    if open_why:
+        return ('open', open_why)
+    return ('ok', out)
